@@ -203,6 +203,62 @@ Definition outer (closed : bool) (st : C18.state) (dest : C18.sockaddr) (src : o
 Definition quic_result (h : handed) (inner : N) : N :=
   match h with HFatal => 1 | _ => 0 end.
 
+(* The destination as QUIC gave it: like dst_of, but the scope id is kept.  This is the
+   destination the property's IP rule speaks about ("on the destination's scope"). *)
+Definition orig_dst (sa : C18.sockaddr) : dst :=
+  match sa with
+  | C18.SV4 a _ => D4 a
+  | C18.SV6 o _ _ sc => if C18.is_v4_mapped o then D4 (C18.v4_of o) else D6 (num o 0) sc
+  end.
+
+(* ---- Sender::poll_send composed with what it hands the datagram to.
+   deliv = what is observable behind the hand-off:
+   DRemote: whether the SendDatagram message arrived in the RemoteStateActor inbox of the key
+            (try_send_remote_state_msg: no actor / closed / full inbox -> dropped, still Ok);
+   DIp:     the socket TransportsSender::poll_send chose;
+   DCustom: the custom senders polled, in order;
+   DRelay:  the relay sender whose channel received the item. *)
+Inductive deliv :=
+| DNone
+| DRemote (arrived : bool)
+| DIp (a : action)
+| DCustom (polled : list N)
+| DRelay (got : option N).
+
+(* the harness names custom addresses by numbers: key n is CustomAddr(id n mod 2, [n / 2]) *)
+Definition custom_id (k : N) : N := k mod 2.
+
+(* inbox: (endpoint key, 0 room | 1 closed | 2 full); keys not listed have no actor *)
+Definition inbox_room (inbox : list (N * N)) (k : N) : bool :=
+  existsb (fun p => N.eqb (fst p) k && N.eqb (snd p) 0) inbox.
+
+(* relay senders (0 room | 1 closed channel | 2 full channel), polled in order until one is
+   Ready (transports.rs:1222-1238): the item arrives at the first non-pending one if it has room *)
+Fixpoint relay_got (i : N) (behs : list N) : option N :=
+  match behs with
+  | [] => None
+  | b :: r => if N.eqb b 2 then relay_got (i + 1) r else if N.eqb b 0 then Some i else None
+  end.
+
+Definition one_send := (bool * C18.sockaddr * option srcip)%type.   (* closed?, destination, src_ip *)
+Definition one_obs := (N * handed * deliv)%type.                     (* result code, handed, delivery *)
+
+Definition deliv_of (t : transports) (customs : list (list N * N)) (relays : list N)
+    (inbox : list (N * N)) (h : handed) : deliv :=
+  match h with
+  | HFatal | HDropped => DNone
+  | HRemote k => DRemote (inbox_room inbox k)
+  | HPath (PIp d s) => DIp (dispatch t s d)
+  | HPath (PCustom k _) => DCustom (fst (custom_dispatch 0 customs (custom_id k)))
+  | HPath (PRelay _) => DRelay (relay_got 0 relays)
+  end.
+
+Definition out_send (t : transports) (customs : list (list N * N)) (relays : list N)
+    (inbox : list (N * N)) (st : C18.state) (x : one_send) : one_obs :=
+  let '(closed, dest, src) := x in
+  let h := outer closed st dest src in
+  (quic_result h 0, h, deliv_of t customs relays inbox h).
+
 (* ---- specification-level choice, independent of the stored order:
    among the bound sockets of the destination's family IN BIND ORDER, scanning from the
    right, keep the candidate unless an earlier matching socket has a prefix at least as long. *)
@@ -245,13 +301,18 @@ Inductive sres :=
 Inductive input :=
 | IValid (s : sock) (src : option ip) (d : dst)
 | ISend (rs : list req) (customs : list (list N * N)) (sends : list send)
-| IOuter (closed : bool) (ops : list C18.op) (dest : C18.sockaddr) (src : option srcip).
+| IOuter (closed : bool) (ops : list C18.op) (dest : C18.sockaddr) (src : option srcip)
+(* the real Sender over real maps filled by `ops`, real sockets bound from `rs`, custom
+   senders, relay senders and RemoteStateActor inboxes, then one poll_send per entry of `sends` *)
+| IOut (rs : list req) (customs : list (list N * N)) (relays : list N) (inbox : list (N * N))
+       (ops : list C18.op) (sends : list one_send).
 
 Inductive output :=
 | OValid (vs vd : bool) (prefix_len : N)
 | OBindErr (e : N)
 | OSent (l4 : list N) (d4 : option N) (l6 : list N) (d6 : option N) (rs : list sres)
-| OOuter (h : handed).
+| OOuter (h : handed)
+| OOut (l4 : list N) (d4 : option N) (l6 : list N) (d6 : option N) (xs : list one_obs).
 
 Definition do_send (t : transports) (customs : list (list N * N)) (s : send) : sres :=
   match s with
@@ -271,6 +332,13 @@ Definition model (i : input) : output :=
       | Panic => OBindErr 99
       end
   | IOuter closed ops dest src => OOuter (outer closed (fst (C18.run C18.init ops)) dest src)
+  | IOut rs customs relays inbox ops sends =>
+      match bind rs with
+      | Ok t => OOut (map sid (t4 t)) (position (t4 t) 0) (map sid (t6 t)) (position (t6 t) 0)
+                     (map (out_send t customs relays inbox (fst (C18.run C18.init ops))) sends)
+      | Err e => OBindErr e
+      | Panic => OBindErr 99
+      end
   end.
 
 Definition ip_eqb (a b : ip) : bool :=
@@ -309,6 +377,19 @@ Definition handed_eqb (a b : handed) : bool :=
   | _, _ => false
   end.
 
+Definition deliv_eqb (a b : deliv) : bool :=
+  match a, b with
+  | DNone, DNone => true
+  | DRemote x, DRemote y => Bool.eqb x y
+  | DIp x, DIp y => action_eqb x y
+  | DCustom x, DCustom y => list_eqb N.eqb x y
+  | DRelay x, DRelay y => opt_eqb N.eqb x y
+  | _, _ => false
+  end.
+Definition one_obs_eqb (a b : one_obs) : bool :=
+  let '(r, h, d) := a in let '(r', h', d') := b in
+  N.eqb r r' && handed_eqb h h' && deliv_eqb d d'.
+
 Definition agree (i : input) (o : output) : bool :=
   match model i, o with
   | OValid a b p, OValid a' b' p' => Bool.eqb a a' && Bool.eqb b b' && N.eqb p p'
@@ -317,6 +398,9 @@ Definition agree (i : input) (o : output) : bool :=
       list_eqb N.eqb l4 l4' && opt_eqb N.eqb d4 d4' && list_eqb N.eqb l6 l6' && opt_eqb N.eqb d6 d6'
       && list_eqb sres_eqb rs rs'
   | OOuter h, OOuter h' => handed_eqb h h'
+  | OOut l4 d4 l6 d6 xs, OOut l4' d4' l6' d6' xs' =>
+      list_eqb N.eqb l4 l4' && opt_eqb N.eqb d4 d4' && list_eqb N.eqb l6 l6' && opt_eqb N.eqb d6 d6'
+      && list_eqb one_obs_eqb xs xs'
   | _, _ => false
   end.
 
@@ -372,6 +456,53 @@ Definition outer_ok (closed : bool) (ops : list C18.op) (dest : C18.sockaddr) (h
       end
   end.
 
+(* one poll_send of the real Sender, observed: QUIC is told Err exactly when closed; the
+   datagram was handed where outer_ok says; and behind the hand-off: an IP datagram went to
+   the socket the rule designates for the destination AS QUIC GAVE IT (scope id included;
+   the same socket, whether by the match or the default clause) with the source QUIC gave, a custom one only to senders accepting its transport id. *)
+Definition accepts (customs : list (list N * N)) (id i : N) : bool :=
+  match nth_error customs (N.to_nat i) with
+  | Some (acc, _) => existsb (N.eqb id) acc
+  | None => false
+  end.
+
+(* handed to the same socket (or both dropped), by whichever rule *)
+Definition same_sock (a b : action) : bool :=
+  match a, b with
+  | SendOn i _, SendOn j _ => N.eqb i j
+  | Blackhole, Blackhole => true
+  | _, _ => false
+  end.
+
+Definition deliv_ok (rs : list req) (customs : list (list N * N)) (dest : C18.sockaddr)
+    (src : option srcip) (h : handed) (dv : deliv) : bool :=
+  match h, dv with
+  | HFatal, DNone | HDropped, DNone => true
+  | HRemote _, DRemote _ => true
+  | HPath (PIp _ s), DIp a =>
+      opt_eqb ip_eqb s (option_map src_num src)
+      && same_sock a (spec_choice rs (option_map src_num src) (orig_dst dest))
+  | HPath (PCustom k _), DCustom polled =>
+      forallb (accepts customs (custom_id k)) polled && increasing polled
+  | HPath (PRelay _), DRelay _ => true
+  | _, _ => false
+  end.
+
+Definition out_ok (rs : list req) (customs : list (list N * N)) (ops : list C18.op)
+    (x : one_send) (y : one_obs) : bool :=
+  let '(closed, dest, src) := x in
+  let '(res, h, dv) := y in
+  N.eqb res (if closed then 1 else 0) && outer_ok closed ops dest h
+  && deliv_ok rs customs dest src h dv.
+
+Fixpoint outs_ok (rs : list req) (customs : list (list N * N)) (ops : list C18.op)
+    (xs : list one_send) (ys : list one_obs) : bool :=
+  match xs, ys with
+  | [], [] => true
+  | x :: xs', y :: ys' => out_ok rs customs ops x y && outs_ok rs customs ops xs' ys'
+  | _, _ => false
+  end.
+
 Definition monitor (i : input) (o : output) : bool :=
   match i, o with
   | IValid _ _ _, _ => true
@@ -379,13 +510,42 @@ Definition monitor (i : input) (o : output) : bool :=
       sends_ok rs customs sends xs
   | ISend rs _ _, OBindErr e => negb (N.eqb e 99)
   | IOuter closed ops dest src, OOuter h => outer_ok closed ops dest h
+  | IOut rs customs _ _ ops sends, OOut _ _ _ _ ys => outs_ok rs customs ops sends ys
+  | IOut _ _ _ _ _ _, OBindErr e => negb (N.eqb e 99)
   | _, _ => false
   end.
 
-Definition known (i : input) : N := 0.
+(* Known finding, class 1: Sender::poll_send erases the scope id of an IPv6 destination
+   (SocketAddr::new(ip.to_canonical(), port), transports.rs:1497-1498) before the dispatch sees
+   it.  A send falls in the class exactly when that changes the socket: the rule applied to
+   the destination with scope 0 picks another socket (or none) than the rule applied to the
+   destination QUIC gave.  (Only link-local destinations with a non-zero scope id and no
+   source address can be in it: C19_scope_erasure_confined.) *)
+Definition scope_hit (rs : list req) (x : one_send) : bool :=
+  let '(closed, dest, src) := x in
+  negb closed &&
+  match C18.classify dest with
+  | C18.MIp sa => negb (same_sock (spec_choice rs (option_map src_num src) (dst_of sa))
+                                  (spec_choice rs (option_map src_num src) (orig_dst dest)))
+  | _ => false
+  end.
+
+Definition known (i : input) : N :=
+  match i with
+  | IOut rs _ _ _ _ sends =>
+      match bind rs with
+      | Ok _ => if existsb (scope_hit rs) sends then 1 else 0
+      | _ => 0
+      end
+  | _ => 0
+  end.
 
 (* Branch tag: 1 pure validity probe / 2 bind error / 3 sends, all by a matching socket or
-   custom / 4 sends, some through the default route / 5 sends, some blackholed / 6 outer. *)
+   custom / 4 sends, some through the default route / 5 sends, some blackholed / 6 outer
+   (one datagram, hand-off only) / outer + delivery: 7 nothing dropped or fatal, 8 some
+   datagram dropped (unknown synthetic address), 9 some fatal (closed), 10 bind error. *)
+Definition is_dropped (y : one_obs) : bool := match y with (_, HDropped, _) => true | _ => false end.
+Definition is_fatal (y : one_obs) : bool := match y with (_, HFatal, _) => true | _ => false end.
 Definition is_default_send (r : sres) : bool :=
   match r with RIp (SendOn _ true) => true | _ => false end.
 Definition is_blackhole (r : sres) : bool :=
@@ -400,6 +560,12 @@ Definition tag (i : input) : N :=
       | _ => 2
       end
   | IOuter _ _ _ _ => 6
+  | IOut _ _ _ _ _ _ =>
+      match model i with
+      | OOut _ _ _ _ ys =>
+          if existsb is_fatal ys then 9 else if existsb is_dropped ys then 8 else 7
+      | _ => 10
+      end
   end.
 
 Definition judge (i : input) (o : output) : bool * bool * N * N :=
